@@ -716,6 +716,10 @@ def model_apply(M, pre, op, a):
         M.setMassFracs(T, a["d"])
     elif name == "adjustMassFrac":
         adj, const = _adjust_sets(M, T, a["kw"])
+        if not adj and a["kw"]["val"]:
+            # none of the nuclides to adjust exists here: adjustMassFrac's own consistency test
+            # refuses ("Failed to adjust mass fraction")
+            raise Refusal("RuntimeError")
         new, _old, _a, _c = M.adjusted_fracs(T, adj, const, a["kw"]["val"])
         M.setMassFracs(T, new)
     elif name == "clear":
@@ -845,6 +849,20 @@ def step(s, M, pre, op, check, case):
     def bad(key, msg):
         vs.append(core.viol("c02/" + key, "%s after %s: %s" % (_where(s, path), _opstr(op, a), msg), case))
 
+    if name in MASSFRAC_OPS and Tpre["lvl"] == "component" and not Tpre["nd"]:
+        # A component WITHOUT nuclides reports its material's density by design ("no nuclides in
+        # this component yet ... defer to Material"), so assigning mass fractions to it populates it
+        # from the material: material densities are outside this model (C03/C19).  The operation is
+        # executed, no transition oracle; the state invariants judge the result.
+        try:
+            real_apply(obj, op, a)
+            out = "ok"
+        except (ValueError, RuntimeError) as e:
+            out = "refused:" + type(e).__name__
+        except Exception as e:  # noqa: BLE001
+            out = "raised:" + type(e).__name__
+            bad("exception-%s-%s-%s" % (kname, ctag, type(e).__name__), "unexpected %r" % (e,))
+        return out, snap(s), vs
     try:
         pred = model_apply(M, pre, op, a)
         want_out = "ok"
@@ -856,7 +874,8 @@ def step(s, M, pre, op, check, case):
         arg = real_apply(obj, op, a)
         out = "ok"
     except Exception as e:  # noqa: BLE001 - classified below
-        out = ("refused:" if type(e).__name__ in CONTRACT else "raised:") + type(e).__name__
+        legit = type(e).__name__ in CONTRACT or want_out == "refused:" + type(e).__name__
+        out = ("refused:" if legit else "raised:") + type(e).__name__
         exc = e
     post = snap(s)
     if check and out == "ok" and isinstance(arg, dict):
@@ -876,7 +895,7 @@ def step(s, M, pre, op, check, case):
     if not check:
         return out, post, vs
     if out != "ok":
-        if type(exc).__name__ not in CONTRACT:
+        if not out.startswith("refused:"):
             bad("exception-%s-%s-%s" % (kname, ctag, type(exc).__name__), "unexpected %r" % (exc,))
         elif want_out == "ok":
             bad("refusal-unexpected-%s-%s" % (rname, ltag), "raised %r although the request is well defined" % (exc,))
